@@ -44,7 +44,7 @@ theorem contCharge_flow {b : Batt ℝ} (hb : Inv b) (hm : 0 < b.maxPower) (hn : 
       SameParams b b' ∧ r = (b'.charge - b.charge) / (T / 60) * 1000 / V := by
   have hc := hb.cap_pos
   have hmd := mdOf_pos hc hm hT
-  refine ⟨_, _, contCharge_ok b ν hV hT hp.ne' hc.ne' hmd.ne', ?_, ⟨rfl, rfl, rfl, rfl, rfl, rfl, rfl⟩, ?_⟩
+  refine ⟨_, _, contCharge_ok b ν hV hT hp hc hm hb.ts_lt hb.charge_le, ?_, ⟨rfl, rfl, rfl, rfl, rfl, rfl, rfl⟩, ?_⟩
   · show currOf b pilot V T ν * b.capacity = _
     rw [currOf_free hn, pd0Of_lin b pilot V hT, mdOf_lin b hT,
       contSoc_eq_flow_t (by positivity) (by positivity) hb.ts_lt hT]
@@ -70,10 +70,15 @@ theorem charge_sameParams {b : Batt ℝ} {pilot V T ν : ℝ} {b' : Batt ℝ} {r
       rcases eq_or_ne pilot 0 with h0 | h0
       · subst h0; rw [contCharge_zero b ν hV hT] at h; cases h
         exact ⟨rfl, rfl, rfl, rfl, rfl, rfl, rfl⟩
-      · rcases hg with hg | ⟨hc, hmd⟩
+      · rcases hg with hg | ⟨hc, hfull | hmd⟩
         · exact absurd hg h0
-        · rw [contCharge_ok b ν hV hT h0 hc hmd] at h; cases h
+        · rw [contCharge_full b ν hV hT h0 hc hfull] at h; cases h
           exact ⟨rfl, rfl, rfl, rfl, rfl, rfl, rfl⟩
+        · by_cases hf : 1 ≤ b.charge / b.capacity
+          · rw [contCharge_full b ν hV hT h0 hc hf] at h; cases h
+            exact ⟨rfl, rfl, rfl, rfl, rfl, rfl, rfl⟩
+          · rw [contCharge_ok_lt b ν hV hT h0 hc hmd (not_le.mp hf)] at h; cases h
+            exact ⟨rfl, rfl, rfl, rfl, rfl, rfl, rfl⟩
     · unfold stepCharge at h
       rw [if_neg (not_le.mpr hV), if_neg (not_le.mpr hT)] at h
       by_cases hc : isZero b.capacity = true
